@@ -1,6 +1,6 @@
 import Rtsp.Generated.Facts.Ring
 import Rtsp.Proofs.RingQueue
-import Rtsp.Proofs.RingConcD
+import Rtsp.Proofs.RingConcF
 import Rtsp.Proofs.AsyncProps
 /-
 C16 — Outbound write queue: FIFO, bounded, loss only when signalled.
@@ -42,6 +42,24 @@ theorem structure_facts :
     Ring.closeCancelsClosesJoins = true ∧ Ring.runClosesDone = true ∧
     Ring.pushDelegatesToRing = true ∧ Ring.startSetsRunningAndSpawns = true ∧
     Ring.newAllocatesSizeSlots = true ∧ Ring.initializeUsesBufferSize = true := by decide
+
+/-- "…and the caller told": every call of `Processor.Push` in the library (server session format /
+media, client format / media, multicast writer media / format) is immediately followed by
+`if !ok { return liberrors.Err…WriteQueueFull{} }`; and a size-0 ring is never created by the
+library: `WriteQueueSize` 0 is replaced by the default and anything else must be a power of two. -/
+theorem user_facts :
+    Ring.ssfmtRefusalsReported = Ring.ssfmtPushCalls ∧ Ring.ssmedRefusalsReported = Ring.ssmedPushCalls ∧
+    Ring.clfmtRefusalsReported = Ring.clfmtPushCalls ∧ Ring.clmedRefusalsReported = Ring.clmedPushCalls ∧
+    Ring.mcmedRefusalsReported = Ring.mcmedPushCalls ∧ Ring.mcfmtRefusalsReported = Ring.mcfmtPushCalls ∧
+    0 < Ring.ssfmtPushCalls + Ring.ssmedPushCalls + Ring.clfmtPushCalls + Ring.clmedPushCalls +
+        Ring.mcmedPushCalls + Ring.mcfmtPushCalls ∧
+    0 < Ring.serverDefaultQueueSize ∧ 0 < Ring.clientDefaultQueueSize ∧
+    Rtsp.Ring.sizeRejected Ring.serverDefaultQueueSize = false ∧
+    Rtsp.Ring.sizeRejected Ring.clientDefaultQueueSize = false := by decide
+
+/-- test (bounded, by evaluation): the sizes `New` accepts up to 260 are 0 and the powers of two -/
+example : (List.range 261).filter (fun n => !Rtsp.Ring.sizeRejected n) =
+    [0, 1, 2, 4, 8, 16, 32, 64, 128, 256] := by decide
 
 /-! ## 1. Sequential ring: invariant and refinement to the bounded FIFO -/
 
@@ -154,6 +172,31 @@ theorem conc_linearizable {size : Nat} (hsize : 0 < size) {s : State α} (h : Re
     Fifo.run (Fifo.new size) (s.log.map (·.op)) = (abs s.ring, s.log.map (·.res)) ∧
     RingInv s.ring :=
   Rtsp.RingConc.conc_linearizable hsize h
+
+/-- the critical sections are executed in the order in which their threads acquired the mutex -/
+theorem acq_order {size : Nat} {s : State α} (h : Reachable size s) (ho : s.owner = none) :
+    s.acq = s.log.map (fun e => (e.tid, e.op)) :=
+  Rtsp.RingConc.acq_order h ho
+
+/-- **every concurrent history is linearizable to the bounded FIFO** (linearization-point form):
+`h` is the history of invocation / linearization / response events of a run (`IReach`; every
+reachable state has one, `Reachable.history`).  The linearization events in order are a legal
+sequential history of the bounded FIFO of capacity `size`, with exactly the results the threads
+observed, ending in the abstraction of the ring state; and for every thread the history is
+well-formed (`WF`: call → lin → ret, same operation, same result), i.e. every linearization point
+lies between the invocation and the response of its own operation, hence the sequential order
+respects the real-time order of non-overlapping operations.  (`Pull` is split into attempts; an
+attempt that finds nothing is the specification's no-op `wait`.) -/
+theorem conc_history_linearizable {size : Nat} (hsize : 0 < size) {s : State α}
+    {h : List (Rtsp.RingConc.HEv α)} (hr : Rtsp.RingConc.IReach size s h) :
+    Fifo.run (Fifo.new size) ((Rtsp.RingConc.lins h).map (·.op)) =
+      (abs s.ring, (Rtsp.RingConc.lins h).map (·.res)) ∧
+    ∀ t, Rtsp.RingConc.WF t h (Rtsp.RingConc.phase s t) :=
+  Rtsp.RingConc.conc_history_linearizable hsize hr
+
+theorem reachable_has_history {size : Nat} {s : State α} (hr : Reachable size s) :
+    ∃ h, Rtsp.RingConc.IReach size s h :=
+  Rtsp.RingConc.Reachable.history hr
 
 /-- **no_lost_wakeup**: a consumer parked in `cond.Wait()` either has nothing to see (slot at
 `readIndex` empty, ring open) or a `Broadcast` is still pending -/
